@@ -127,6 +127,11 @@ def judge(case, obs, resps):
                 # the two references (Lean model / real code run sequentially) disagree about the sequential
                 # behaviour: a broken correspondence (C14 / C15 territory), not a verdict about the threads
                 detail["references_disagree"] = {"lean_model_accepts": ok, "real_sequential_code_accepts": seq}
+                if seq and not ok and not nontrivial:
+                    # this very run WAS sequential (no thread was switched away from before it had finished) and its
+                    # results are not what the component's specification gives for any order of the calls: a call
+                    # (or the probe afterwards) did not return correct, current data
+                    return Judgement(case, False, True, detail, kind, True, "sequential_result_incorrect")
                 return Judgement(case, True, False, detail, kind, nontrivial, None)
     else:
         raise ValueError("unknown component " + kind)
@@ -137,6 +142,8 @@ def judge(case, obs, resps):
 T_STATES = ["aa:aa;10.0.0.1;alpha\nbb:bb;10.0.0.2;beta\n",
             "aa:aa;10.0.0.9;alpha\ncc:cc;10.0.0.1;gamma\n",
             "dd:dd;10.0.0.1;beta\n"]
+# a file whose second line does not match (with mismatch_action "error" every call on it raises), then a good one
+T_BAD_STATES = ["aa:aa;10.0.0.1;alpha\nthis line does not match\n", "aa:aa;10.0.0.1;alpha\nbb:bb;10.0.0.2;beta\n"]
 # state 0 is the initial tree; every later state differs from it in exactly ONE file: a call that
 # overlaps a change of several files may legitimately see some of them old and some new (there is
 # no snapshot across files), the property is about a file being seen in one state per call
@@ -176,6 +183,17 @@ def core_scenarios():
                 "threads": [[["get", "alpha"]], [["get", "beta"]]]})
     out.append({"comp": "textfile", "cfg": {"states": T_STATES, "conf": {"cache_enabled": False, "find_first_match": True}},
                 "threads": [[["find", "net:ip", "10.0.0.1"]], [["write", 1]], [["get", "gamma"]]]})
+    # a reload that FAILS (mismatching line, action "error"): the failure is the result of every call on that file
+    # state - also of the call that waited for the lock meanwhile and of the calls afterwards - until the file changes
+    out.append({"comp": "textfile", "cfg": {"states": T_BAD_STATES, "conf": {"mismatch_action": "error"}},
+                "threads": [[["get", "alpha"], ["get", "alpha"]], [["find", "net:ip", "10.0.0.1"]]]})
+    out.append({"comp": "textfile", "cfg": {"states": T_BAD_STATES, "conf": {"mismatch_action": "error"}},
+                "threads": [[["get", "alpha"]], [["write", 1]], [["get", "beta"], ["get", "alpha"]]]})
+    # two writers of the same NEW key (and of an existing one): each call succeeds, the value is one of the two
+    out.append({"comp": "store", "cfg": {"initial": [["b", "k", 0]]},
+                "threads": [[["set", "a", "n", 1]], [["set", "a", "n", 2]], [["get", "a", "n"]]]})
+    out.append({"comp": "store", "cfg": {"initial": [["a", "k", 1]]},
+                "threads": [[["set", "a", "k", 2], ["set", "c", "k", 5]], [["set", "c", "k", 6], ["del", "a", "k"]]]})
     # readers overlapping a rewrite: a reader, the writer, another reader (reload) - in every order
     out.append({"comp": "textfile", "cfg": {"states": T_STATES, "conf": {}},
                 "threads": [[["get", "alpha"]], [["write", 1]], [["get", "alpha"]]]})
